@@ -638,6 +638,11 @@ func cmdCheck(args []string) int {
 				infra++
 				if len(infraMsgs) < 5 {
 					infraMsgs = append(infraMsgs, fmt.Sprintf("case=%s seed=%d: %s", r.Case, r.Seed, r.infra))
+					// keep the spec: `verif run <file>` repeats the run
+					if js, err := json.MarshalIndent(r.spec, "", " "); err == nil {
+						os.MkdirAll(filepath.Join(outDir(), "replays"), 0o755)
+						os.WriteFile(filepath.Join(outDir(), "replays", fmt.Sprintf("NOVERDICT-%s-%d.spec.json", prop, r.Seed)), js, 0o644)
+					}
 				}
 				return
 			}
